@@ -140,6 +140,9 @@ func init() {
 			if a.Done == 0 {
 				return "no execution reached the target height"
 			}
+			if a.Stats.Antecedents["new-transaction-during-extended-wait"] == 0 || a.Stats.Antecedents["empty-proposal"] == 0 {
+				return "no transaction ever appeared during an extended wait / no empty proposal was ever made"
+			}
 			return ""
 		})
 }
@@ -521,6 +524,7 @@ func c14Jobs(tier string) []*Job {
 		sc := timedScen(name, n, "", append([]opt{withHeights(3), withK(k), withHorizon(40)}, opts...)...)
 		sc.SyncDefault = true
 		sc.Dev.Dup = false // duplicate candidates are ordered by payload hash, which depends on the epoch
+		sc.Dev.Tick = n == 4 // message delays: the primary's round-trip estimate becomes non-zero and feeds the timers
 		return &Job{Kind: "c14", Scenario: sc, BudgetS: per}
 	}
 	for _, a := range []int64{-1, 0} {
